@@ -13,6 +13,9 @@
 //   l<i>:<prefix>:<limit>   ClearPrefixLimit (limit in hex)
 //   v<i>:<0|1>              SetVersion(V0|V1)
 //   w<i>                    WriteDirty(fresh in-memory database)
+//   P<i>:<c>:<key>:<value>  PutIntoChild(child key c, key, value)      (child tries: Snapshot() gives every
+//   E<i>:<c>:<key>          ClearFromChild(child key c, key)            child trie of the source a new trie
+//   K<i>:<c>                DeleteChild(child key c)                    object with a copy of the root node)
 //   (keys/values: lower-case hex, "-" for empty)
 // an optional first token `U` marks a history that mutates a handle after a snapshot was taken
 // from it (sharing with the snapshot is then by design; only model agreement is checked).
@@ -22,6 +25,9 @@
 //   <res>/<obs 0>/<obs 1>/...       res = init | ok | ok:<deleted hex>:<allDeleted 0|1> | panic
 //   obs j = "=" when Hash() and Entries() of handle j are what they were in the previous record,
 //           else <root hash hex>#<k>:<v>,<k>:<v>,...   (entries sorted by key; "." when empty)
+//           in a history with a P/E/K step every obs is followed by `|aa=<view>|bb=<view>`: Hash#Entries of
+//           the child tries GetChild(0xaa), GetChild(0xbb) of that handle (`-`: no such child trie)
+//   res of E: ok | ok:nochild (ClearFromChild answered with an error: no such child trie)
 //   after a panic (in the step or while observing) the history stops.
 // Hash() then Entries() are called on EVERY live handle after every step, in index order.
 //
@@ -106,6 +112,45 @@ func c03Observe(t *inmemory_trie.InMemoryTrie) (obs string, panicked bool) {
 	return sb.String(), false
 }
 
+var c03ChildKeys = [][]byte{{0xaa}, {0xbb}}
+
+// main view, then the views of the child tries under the child keys 0xaa and 0xbb
+func c03ObserveAll(t *inmemory_trie.InMemoryTrie, withChildren bool) (obs string, panicked bool) {
+	obs, panicked = c03Observe(t)
+	if panicked || !withChildren {
+		return obs, panicked
+	}
+	defer func() {
+		if r := recover(); r != nil {
+			obs, panicked = "panic", true
+		}
+	}()
+	for _, ck := range c03ChildKeys {
+		o := "-"
+		ch, err := t.GetChild(ck)
+		if err == nil && ch != nil {
+			if ct, ok := ch.(*inmemory_trie.InMemoryTrie); ok && ct != nil {
+				var p bool
+				o, p = c03Observe(ct)
+				if p {
+					return "panic", true
+				}
+			}
+		}
+		obs += "|" + vu.Hex(ck) + "=" + o
+	}
+	return obs, false
+}
+
+func c03HasChildOps(toks []string) bool {
+	for _, t := range toks {
+		if t != "" && (t[0] == 'P' || t[0] == 'E' || t[0] == 'K') {
+			return true
+		}
+	}
+	return false
+}
+
 func c03Step(hs *[]*inmemory_trie.InMemoryTrie, tok string) (res string) {
 	defer func() {
 		if r := recover(); r != nil {
@@ -153,6 +198,18 @@ func c03Step(hs *[]*inmemory_trie.InMemoryTrie, tok string) (res string) {
 		if err := t.WriteDirty(&c03DB{m: map[string][]byte{}}); err != nil {
 			return "err"
 		}
+	case 'P':
+		if err := t.PutIntoChild(vu.UnHex(f[1]), vu.UnHex(f[2]), vu.UnHex(f[3])); err != nil {
+			return "err"
+		}
+	case 'E':
+		if err := t.ClearFromChild(vu.UnHex(f[1]), vu.UnHex(f[2])); err != nil {
+			return "ok:nochild"
+		}
+	case 'K':
+		if err := t.DeleteChild(vu.UnHex(f[1])); err != nil {
+			return "err"
+		}
 	default:
 		return "bad"
 	}
@@ -190,13 +247,14 @@ func c03Run(in string) string {
 		toks = toks[1:]
 	}
 	hs := []*inmemory_trie.InMemoryTrie{inmemory_trie.NewEmptyTrie()}
+	withChildren := c03HasChildOps(toks)
 	var prev []string
 	var out strings.Builder
 	out.WriteString(c03Probe() + " ")
 	record := func(res string) bool {
 		out.WriteString(res)
 		for j, t := range hs {
-			o, p := c03Observe(t)
+			o, p := c03ObserveAll(t, withChildren)
 			if p {
 				out.WriteString("/panic")
 				return false
@@ -270,6 +328,65 @@ type c03GenHandle struct {
 	kv     map[string][]byte
 	frozen bool
 	v1     bool
+	kids   map[string]map[string][]byte // child key (hex) -> contents
+}
+
+// keys of the two child tries come from disjoint alphabets: two child tries of one trie never have
+// equal contents (child tries are kept by root hash; equal contents are property C08's subject)
+var c03ChildAlphabet = map[string][]byte{"aa": {0x01, 0x12}, "bb": {0x20, 0xf0}}
+
+func c03ChildOp(r *vu.RNG, i int, h *c03GenHandle) string {
+	c := []string{"aa", "bb"}[r.Intn(2)]
+	if h.kids == nil {
+		h.kids = map[string]map[string][]byte{}
+	}
+	kv := h.kids[c]
+	var keys []string
+	for k := range kv {
+		keys = append(keys, k)
+	}
+	sort.Strings(keys)
+	newKey := func() []byte {
+		al := c03ChildAlphabet[c]
+		k := make([]byte, 1+r.Intn(2))
+		for q := range k {
+			k[q] = al[r.Intn(len(al))]
+		}
+		return k
+	}
+	x := vu.X(uint64(i))
+	switch y := r.Intn(10); {
+	case y < 1 && kv != nil:
+		delete(h.kids, c)
+		return "K" + x + ":" + c
+	case y < 4 && len(keys) > 0:
+		k := keys[r.Intn(len(keys))]
+		if r.Chance(1, 5) {
+			k = string(newKey())
+		}
+		delete(kv, k)
+		if len(kv) == 0 {
+			delete(h.kids, c)
+		}
+		return "E" + x + ":" + c + ":" + vu.Hex([]byte(k))
+	default:
+		var k, v []byte
+		switch {
+		case len(keys) > 0 && r.Chance(1, 3): // re-put the same value (the version may have changed)
+			k = []byte(keys[r.Intn(len(keys))])
+			v = kv[string(k)]
+		case len(keys) > 0 && r.Chance(1, 4):
+			k, v = []byte(keys[r.Intn(len(keys))]), c03Val(r)
+		default:
+			k, v = newKey(), c03Val(r)
+		}
+		if kv == nil {
+			kv = map[string][]byte{}
+			h.kids[c] = kv
+		}
+		kv[string(k)] = v
+		return "P" + x + ":" + c + ":" + vu.Hex(k) + ":" + vu.Hex(v)
+	}
 }
 
 func c03Existing(r *vu.RNG, h *c03GenHandle) (string, bool) {
@@ -285,7 +402,7 @@ func c03Existing(r *vu.RNG, h *c03GenHandle) (string, bool) {
 }
 
 // one random fork history; unfrozen = true allows mutating a handle that was snapshotted
-func c03History(r *vu.RNG, steps int, unfrozen bool) string {
+func c03History(r *vu.RNG, steps int, unfrozen bool, kids bool) string {
 	hs := []*c03GenHandle{{kv: map[string][]byte{}}}
 	var toks []string
 	if unfrozen {
@@ -308,6 +425,10 @@ func c03History(r *vu.RNG, steps int, unfrozen bool) string {
 		i := pick()
 		h := hs[i]
 		x := r.Intn(100)
+		if kids && (r.Chance(1, 4) || (s < 3 && r.Chance(1, 2))) {
+			toks = append(toks, c03ChildOp(r, i, h))
+			continue
+		}
 		switch {
 		case x < 14 && len(hs) < 6: // snapshot (of any handle, frozen or not)
 			j := r.Intn(len(hs))
@@ -320,7 +441,18 @@ func c03History(r *vu.RNG, steps int, unfrozen bool) string {
 			for k, v := range src.kv {
 				nkv[k] = v
 			}
-			hs = append(hs, &c03GenHandle{kv: nkv, v1: src.v1})
+			nh := &c03GenHandle{kv: nkv, v1: src.v1}
+			for c, ckv := range src.kids {
+				if nh.kids == nil {
+					nh.kids = map[string]map[string][]byte{}
+				}
+				m := map[string][]byte{}
+				for k, v := range ckv {
+					m[k] = v
+				}
+				nh.kids[c] = m
+			}
+			hs = append(hs, nh)
 			toks = append(toks, "s"+vu.X(uint64(j)))
 		case x < 22: // raise the version (of any handle: allowed on frozen ones too)
 			j := i
@@ -463,15 +595,203 @@ func c03Upgrade(r *vu.RNG) string {
 	return strings.Join(toks, " ")
 }
 
+// directed: a child trie with several keys (a branch root over leaves), optional WriteDirty, Snapshot
+// (and a snapshot of the snapshot), then child-trie operations on a snapshot that touch EXISTING
+// nodes of the child trie: overwrite, delete, re-put after a version upgrade, new key below the root.
+func c03ChildDirected(r *vu.RNG) string {
+	var toks []string
+	c := []string{"aa", "bb"}[r.Intn(2)]
+	al := c03ChildAlphabet[c]
+	base := [][]byte{{al[0]}, {al[0], al[1]}, {al[1], al[0]}, {al[1]}, {al[0], al[0]}}
+	n := 2 + r.Intn(len(base)-1)
+	vals := map[string][]byte{}
+	var keys []string
+	for q := 0; q < n; q++ {
+		v := c03Val(r)
+		vals[string(base[q])] = v
+		keys = append(keys, string(base[q]))
+		toks = append(toks, "P0:"+c+":"+vu.Hex(base[q])+":"+vu.Hex(v))
+	}
+	if r.Chance(1, 3) {
+		toks = append(toks, "p0:12:"+vu.Hex(c03Val(r)))
+	}
+	if r.Chance(1, 2) {
+		toks = append(toks, "w0")
+	}
+	toks = append(toks, "s0")
+	who := 1
+	if r.Chance(1, 3) {
+		toks = append(toks, "s0")
+		who = 1 + r.Intn(2)
+	} else if r.Chance(1, 3) {
+		toks = append(toks, "s1")
+		who = 2
+	}
+	x := vu.X(uint64(who))
+	if r.Chance(1, 3) {
+		toks = append(toks, "v"+x+":1")
+	}
+	for q := 0; q < 1+r.Intn(4); q++ {
+		k := keys[r.Intn(len(keys))]
+		switch r.Intn(5) {
+		case 0:
+			toks = append(toks, "E"+x+":"+c+":"+vu.Hex([]byte(k)))
+		case 1:
+			toks = append(toks, "P"+x+":"+c+":"+vu.Hex([]byte(k))+":"+vu.Hex(vals[k]))
+		case 2:
+			toks = append(toks, "P"+x+":"+c+":"+vu.Hex(append([]byte(k), al[r.Intn(2)]))+":"+vu.Hex(c03Val(r)))
+		case 3:
+			toks = append(toks, "w"+x)
+		default:
+			toks = append(toks, "P"+x+":"+c+":"+vu.Hex([]byte(k))+":"+vu.Hex(c03Val(r)))
+		}
+	}
+	return strings.Join(toks, " ")
+}
+
+// directed: a trie of nested keys (branches below branches, branch values, odd and even depths) is
+// built on handle 0 and snapshotted; every mutating operation is then aimed at EXISTING, shared nodes
+// of a snapshot: same-value / new-value / extending / shortening Puts, Deletes of present keys and of
+// proper prefixes of keys, ClearPrefix and ClearPrefixLimit with prefixes of present keys (a prefix
+// ending in a zero low nibble is trimmed by the code to an odd number of nibbles: the model trims too).
+var c03Nested = []string{"12", "1201", "1212", "121f", "121f01", "1f", "1f10", "1f12", "20", "2012", "f0", "f0f0", ""}
+
+func c03Shared(r *vu.RNG) string {
+	var toks []string
+	kv := map[string][]byte{}
+	if r.Chance(1, 5) {
+		toks = append(toks, "v0:1")
+	}
+	n := 3 + r.Intn(7)
+	for q := 0; q < n; q++ {
+		k := vu.UnHex(c03Nested[r.Intn(len(c03Nested))])
+		v := c03Val(r)
+		kv[string(k)] = v
+		toks = append(toks, "p0:"+vu.Hex(k)+":"+vu.Hex(v))
+	}
+	if r.Chance(1, 2) {
+		toks = append(toks, "w0")
+	}
+	type gh struct {
+		kv     map[string][]byte
+		frozen bool
+	}
+	hs := []*gh{{kv: kv}}
+	snap := func(j int) {
+		m := map[string][]byte{}
+		for a, b := range hs[j].kv {
+			m[a] = b
+		}
+		hs[j].frozen = true
+		hs = append(hs, &gh{kv: m})
+		toks = append(toks, "s"+vu.X(uint64(j)))
+	}
+	snap(0)
+	if r.Chance(1, 3) {
+		snap(r.Intn(2))
+	}
+	rounds := 1 + r.Intn(2)
+	for round := 0; round < rounds; round++ {
+		var open []int
+		for i, h := range hs {
+			if !h.frozen {
+				open = append(open, i)
+			}
+		}
+		i := open[r.Intn(len(open))]
+		h := hs[i]
+		x := vu.X(uint64(i))
+		if r.Chance(1, 4) {
+			toks = append(toks, "v"+x+":1")
+		}
+		for q := 0; q < 1+r.Intn(4); q++ {
+			var keys []string
+			for a := range h.kv {
+				keys = append(keys, a)
+			}
+			sort.Strings(keys)
+			if len(keys) == 0 {
+				keys = []string{"\x12"}
+			}
+			k := []byte(keys[r.Intn(len(keys))])
+			pre := k
+			if len(k) > 0 && r.Chance(1, 2) {
+				pre = k[:len(k)-1]
+			}
+			if r.Chance(1, 6) {
+				pre = []byte{[]byte{0x10, 0x20, 0xf0, 0x12, 0x1f}[r.Intn(5)]}
+			}
+			switch r.Intn(9) {
+			case 0:
+				toks = append(toks, "p"+x+":"+vu.Hex(k)+":"+vu.Hex(h.kv[string(k)]))
+			case 1:
+				v := c03Val(r)
+				h.kv[string(k)] = v
+				toks = append(toks, "p"+x+":"+vu.Hex(k)+":"+vu.Hex(v))
+			case 2:
+				nk := append(append([]byte{}, k...), c03KeyBytes[r.Intn(len(c03KeyBytes))])
+				v := c03Val(r)
+				h.kv[string(nk)] = v
+				toks = append(toks, "p"+x+":"+vu.Hex(nk)+":"+vu.Hex(v))
+			case 3:
+				v := c03Val(r)
+				h.kv[string(pre)] = v
+				toks = append(toks, "p"+x+":"+vu.Hex(pre)+":"+vu.Hex(v))
+			case 4:
+				delete(h.kv, string(k))
+				toks = append(toks, "d"+x+":"+vu.Hex(k))
+			case 5:
+				delete(h.kv, string(pre))
+				toks = append(toks, "d"+x+":"+vu.Hex(pre))
+			case 6, 7:
+				for a := range h.kv {
+					if strings.HasPrefix(a, string(pre)) {
+						delete(h.kv, a)
+					}
+				}
+				toks = append(toks, "c"+x+":"+vu.Hex(pre))
+			default:
+				limit := []int{1, 1, 2, 3, 100}[r.Intn(5)]
+				var ks []string
+				for a := range h.kv {
+					if strings.HasPrefix(a, string(pre)) {
+						ks = append(ks, a)
+					}
+				}
+				sort.Strings(ks)
+				for z, a := range ks {
+					if z < limit {
+						delete(h.kv, a)
+					}
+				}
+				toks = append(toks, "l"+x+":"+vu.Hex(pre)+":"+vu.X(uint64(limit)))
+			}
+		}
+		if r.Chance(1, 3) {
+			toks = append(toks, "w"+x)
+		}
+		if round+1 < rounds && len(hs) < 5 {
+			snap(i)
+		}
+	}
+	return strings.Join(toks, " ")
+}
+
 func c03Gen(r *vu.RNG, n int, emit func(string)) {
 	for i := 0; i < n; i++ {
 		switch x := r.Intn(20); {
 		case x < 3:
 			emit(c03Upgrade(r))
 		case x < 5:
-			emit(c03History(r, 4+r.Intn(10), true))
+			emit(c03History(r, 4+r.Intn(10), true, false))
+		case x < 7: // child tries
+			emit(c03History(r, 5+r.Intn(12), false, true))
+		case x < 9:
+			emit(c03ChildDirected(r))
+		case x < 13:
+			emit(c03Shared(r))
 		default:
-			emit(c03History(r, 4+r.Intn(14), false))
+			emit(c03History(r, 4+r.Intn(14), false, false))
 		}
 	}
 }
